@@ -19,6 +19,10 @@ type SweepCfg struct {
 	SelectP func(p *Program, o *Obligation) bool
 	// Unclaimed: obligations (name without the #n ordinal) the machinery cannot decide, with the reason.
 	Unclaimed map[string]string
+	// Parts: which halves of the sweep the property reads: "top" (the entry points and the other
+	// functions tagged C18: the long ones) and "rest". The quick commands of C08 and C18 each pay
+	// for one half, so that each stays within a per-command time budget; C19 and C20 read both.
+	Parts []string
 }
 
 // entryPoints: the six readers, the five writers and the file-level helpers.
@@ -166,15 +170,51 @@ func baseOblName(n string) string {
 func loadSweep(p *Program, run *CheckRun, cfg PropertyCfg, timeout int) {
 	sweepMode = true
 	maxPaths = 2
-	all := sweepFuncs(p)
-	sr := sweepCached(p, all, timeout)
+	top, rest := sweepHalves(p)
+	// quick tier: the functions whose symbolic execution alone takes several minutes are left to
+	// the thorough tier (each quick command must finish within a per-command budget of minutes);
+	// the evidence names them
+	skipped := map[string]bool{}
+	if run.Tier != "thorough" {
+		for _, k := range quickTierSkips {
+			skipped[k] = true
+		}
+		filter := func(ks []string) []string {
+			var out []string
+			for _, k := range ks {
+				if !skipped[k] {
+					out = append(out, k)
+				}
+			}
+			return out
+		}
+		top, rest = filter(top), filter(rest)
+		run.Extra["quick_tier_leaves_to_thorough"] = quickTierSkips
+	}
+	parts := cfg.Sweep.Parts
+	if len(parts) == 0 {
+		parts = []string{"rest", "top"}
+	}
+	sr := &SweepResult{}
+	var info []map[string]interface{}
+	for _, part := range parts {
+		keys := rest
+		if part == "top" {
+			keys = top
+		}
+		one := sweepCached(p, keys, timeout)
+		sr.Results = append(sr.Results, one.Results...)
+		info = append(info, map[string]interface{}{"part": part, "functions_swept": len(keys), "digest": one.Digest, "cache_hit": one.CacheHit, "sweep_wall_s": round3(one.WallS), "workers": one.Workers})
+	}
 	run.Extra["sweep"] = map[string]interface{}{
-		"functions_swept": len(all), "digest": sr.Digest, "cache_hit": sr.CacheHit, "sweep_wall_s": round3(sr.WallS), "workers": sr.Workers,
-		"note": "the sweep executes every function of the package symbolically under its contract (or none) once per tree state; the properties decided on it select their functions and obligations from the same run",
+		"parts": info,
+		"note":  "the sweep executes every function of the package symbolically under its contract (or none) once per tree state, in two halves ('top': the entry points and the other functions tagged C18; 'rest': everything else); C08's command runs 'rest', C18's runs 'top' (including the panic-freedom obligations of those functions), C19 and C20 read both halves from the cache or run what is missing",
 	}
 	want := map[string]bool{}
 	for _, k := range cfg.Sweep.Funcs(p) {
-		want[k] = true
+		if !skipped[k] {
+			want[k] = true
+		}
 	}
 	byKey := map[string]*FuncResult{}
 	for _, r := range sr.Results {
@@ -259,4 +299,32 @@ func purityObligationOfCueList(p *Program, o *Obligation) bool {
 		d = d[j+1:]
 	}
 	return cueHeapsMemo[d]
+}
+
+// sweepHalves: "top" = the entry points plus every function tagged `prop C18` (the long-running
+// readers and writers and their I/O helpers); "rest" = all other swept functions.
+func sweepHalves(p *Program) (top, rest []string) {
+	isTop := map[string]bool{}
+	for _, k := range entryPoints(p) {
+		isTop[k] = true
+	}
+	for _, k := range propFuncs(p, "C18") {
+		isTop[k] = true
+	}
+	for _, k := range sweepFuncs(p) {
+		if isTop[k] {
+			top = append(top, k)
+		} else {
+			rest = append(rest, k)
+		}
+	}
+	return
+}
+
+// quickTierSkips: functions swept by the thorough tier only (several minutes each; see DESIGN.md
+// section 3). Everything else -- including every helper they call -- is swept by the quick tier.
+var quickTierSkips = []string{
+	"ReadFromTeletext", "ReadFromSTL", "ReadFromTTML", "ReadFromWebVTT",
+	"Subtitles.WriteToWebVTT", "Subtitles.WriteToTTML",
+	"teletextPageBuffer.process", "teletextPageBuffer.parsePacketData", "teletextPageBuffer.parsePacket", "teletextPageBuffer.parseDataUnit", "teletextPageBuffer.parsePacketHeader",
 }
